@@ -10,71 +10,80 @@ property texts (C03: a write reaches the page it was meant for; C16: a persistin
 exception, never in a silently wrong state).
 
 `Props/FnBridgeT12Ops.lean` proves the regenerated source slices equal to these definitions and connects them
-with the sector model `Model/SectC03.lean`.
+with the models (the bridge to `Model/SectC03.lean` is suspended while that model moves to an optional belief).
 -/
 namespace NfcVerif.T12OpsRef
 
 /-! ## SECTOR SELECT -/
 
-/-- `Type2Tag.sector_select(sector)` on a tag object that believes sector `cur` is selected.
+/-- `Type2Tag.sector_select(sector)` on a tag object whose `_current_sector` is `cur`: `some c` = sector `c` is
+believed selected, `none` = unknown (Python `None`, fixes/C16/0007).
 `p1` is the outcome of `transceive(C2 FF)` (three attempts), `p2` the outcome of
 `transceive(sector 00 00 00, timeout=0.001, retries=0)`; `p2` is only looked at when packet 1 was acknowledged.
-Result: the value returned / exception raised, and `_current_sector` afterwards.
+Result: the value returned (`self._current_sector`) / exception raised, and `_current_sector` afterwards.
 
-* nothing is sent when the sector is the believed one;
-* an error of packet 1 - also a timeout - is raised, the believed sector is unchanged;
+* nothing is sent when the sector is the believed one (never when the belief is `none`);
+* an error of packet 1 - also a timeout - is raised, the belief is unchanged;
 * packet 1 not answered by the ACK `0A`: INVALID_SECTOR_ERROR (1), unchanged;
 * packet 2 timed out (`TIMEOUT_ERROR`, 0): that IS the acknowledgement, the new sector is recorded;
-* packet 2 failed otherwise: raised, unchanged; packet 2 answered: INVALID_SECTOR_ERROR, unchanged. -/
-def sectorSelect (cur sector : Int) (p1 p2 : Py Bytes) : Py Int × Int :=
-  if sector = cur then (.ok cur, cur) else
+* packet 2 ended with another `Type2TagCommandError` (garbled acknowledge): raised, the belief becomes `none` -
+  the tag may or may not have switched;
+* packet 2 answered: INVALID_SECTOR_ERROR, unchanged; any other exception passes the handler, unchanged. -/
+def sectorSelect (cur : Option Int) (sector : Int) (p1 p2 : Py Bytes) : Py (Option Int) × Option Int :=
+  if cur = some sector then (.ok cur, cur) else
   match p1 with
   | .error e => (.error e, cur)
   | .ok rsp =>
     if rsp = [0x0A] then
       match p2 with
-      | .error (.tagCmd code) => if code = 0 then (.ok sector, sector) else (.error (.tagCmd code), cur)
+      | .error (.tagCmd code) =>
+        if code = 0 then (.ok (some sector), some sector) else (.error (.tagCmd code), none)
       | .error e => (.error e, cur)
       | .ok _ => (.error (.tagCmd 1), cur)
     else (.error (.tagCmd 1), cur)
 
 /-- the tag side, as far as the reader can know it: the tag leaves its sector exactly when packet 1 was
 acknowledged and packet 2 was followed by silence (a faithful passive acknowledgement) -/
-def tagSectorAfter (real cur sector : Int) (p1 p2 : Py Bytes) : Int :=
-  if sector ≠ cur ∧ p1 = .ok [0x0A] ∧ p2 = .error (.tagCmd 0) then sector else real
+def tagSectorAfter (real : Int) (cur : Option Int) (sector : Int) (p1 p2 : Py Bytes) : Int :=
+  if cur ≠ some sector ∧ p1 = .ok [0x0A] ∧ p2 = .error (.tagCmd 0) then sector else real
 
-/-- **the sector the tag object believes selected equals the sector the tag is in after every return or raise
-of `sector_select`** (given it did before, and a faithful passive acknowledgement) -/
-theorem sectorSelect_belief (cur sector real : Int) (p1 p2 : Py Bytes) (h0 : cur = real) :
-    (sectorSelect cur sector p1 p2).2 = tagSectorAfter real cur sector p1 p2 := by
-  subst h0
-  unfold sectorSelect tagSectorAfter
-  by_cases hs : sector = cur
-  · simp [hs]
-  · simp only [hs, if_false]
+/-- the invariant of C03 / C16: the tag object either does not claim to know the sector, or it knows the right one -/
+def BeliefOk (belief : Option Int) (real : Int) : Prop := belief = none ∨ belief = some real
+
+/-- **after every return or raise of `sector_select` the belief is `none` or the sector the tag is in**, given
+that held before and the passive acknowledgement is faithful -/
+theorem sectorSelect_belief (cur : Option Int) (sector real : Int) (p1 p2 : Py Bytes) (h0 : BeliefOk cur real) :
+    BeliefOk (sectorSelect cur sector p1 p2).2 (tagSectorAfter real cur sector p1 p2) := by
+  unfold sectorSelect tagSectorAfter BeliefOk at *
+  by_cases hs : cur = some sector
+  · rcases h0 with h0 | h0
+    · rw [h0] at hs; cases hs
+    · simp [hs]; rw [h0] at hs; cases hs; rfl
+  · simp only [hs, if_false, ne_eq, not_false_eq_true, true_and]
     match p1 with
-    | .error e => simp
+    | .error e => simpa using h0
     | .ok rsp =>
       by_cases hr : rsp = [0x0A]
       · subst hr
         match p2 with
-        | .ok _ => simp
+        | .ok _ => simpa using h0
         | .error e =>
-          cases e <;> simp
-          case tagCmd code =>
+          cases e with
+          | tagCmd code =>
             by_cases hc : code = 0
-            · simp [hc, hs]
             · simp [hc]
+            · simp [hc]
+          | _ => simpa using h0
       · have : ¬ (Except.ok rsp : Py Bytes) = Except.ok [0x0A] := by
           intro h; cases h; exact hr rfl
-        simp [hr, this]
+        simpa [hr, this] using h0
 
-/-- a call that returns normally returns the believed sector, and that is the requested one -/
-theorem sectorSelect_ok (cur sector v : Int) (p1 p2 : Py Bytes)
+/-- a call that returns normally returns the belief, and that is the requested sector -/
+theorem sectorSelect_ok (cur : Option Int) (sector : Int) (v : Option Int) (p1 p2 : Py Bytes)
     (h : (sectorSelect cur sector p1 p2).1 = .ok v) :
-    v = sector ∧ (sectorSelect cur sector p1 p2).2 = sector := by
+    v = some sector ∧ (sectorSelect cur sector p1 p2).2 = some sector := by
   unfold sectorSelect at h ⊢
-  by_cases hs : sector = cur
+  by_cases hs : cur = some sector
   · simp [hs] at h ⊢; exact h.symm
   · simp only [hs, if_false] at h ⊢
     match p1 with
@@ -85,22 +94,29 @@ theorem sectorSelect_ok (cur sector v : Int) (p1 p2 : Py Bytes)
         match p2 with
         | .ok _ => simp at h
         | .error e =>
-          cases e <;> simp at h ⊢
-          case tagCmd code =>
+          cases e with
+          | tagCmd code =>
             by_cases hc : code = 0
             · simp [hc] at h ⊢; exact h.symm
             · simp [hc] at h
+          | _ => simp at h
       · simp [hr] at h
 
 /-- a timeout of packet 1 is never taken for the passive acknowledgement (seeded regression C16-r5m3) -/
-theorem sectorSelect_p1_timeout (cur sector : Int) (p2 : Py Bytes) (h : sector ≠ cur) :
+theorem sectorSelect_p1_timeout (cur : Option Int) (sector : Int) (p2 : Py Bytes) (h : cur ≠ some sector) :
     sectorSelect cur sector (.error (.tagCmd 0)) p2 = (.error (.tagCmd 0), cur) := by
   simp [sectorSelect, h]
 
-/-- an error of packet 2 other than the timeout leaves the believed sector alone (seeded regression C03-r5m1) -/
-theorem sectorSelect_p2_error (cur sector code : Int) (h : sector ≠ cur) (hc : code ≠ 0) :
-    sectorSelect cur sector (.ok [0x0A]) (.error (.tagCmd code)) = (.error (.tagCmd code), cur) := by
+/-- a garbled acknowledge (non-timeout error at packet 2) is raised and leaves the belief `none`
+(fixes/C16/0007; seeded regression C03-r5m1 recorded the new sector here) -/
+theorem sectorSelect_p2_garbled (cur : Option Int) (sector code : Int) (h : cur ≠ some sector) (hc : code ≠ 0) :
+    sectorSelect cur sector (.ok [0x0A]) (.error (.tagCmd code)) = (.error (.tagCmd code), none) := by
   simp [sectorSelect, h, hc]
+
+/-- with an unknown sector the next call always sends packet 1 (its error is what the caller sees) -/
+theorem sectorSelect_unknown_sends (sector : Int) (e : Exc) (p2 : Py Bytes) :
+    sectorSelect none sector (.error e) p2 = (.error e, none) := by
+  simp [sectorSelect]
 
 /-! ## READ answered by a NAK: the tag is activated again -/
 
@@ -120,26 +136,11 @@ theorem reactivation_resets_belief (alive : Bool) : (readNak alive).2 = reactiva
 /-- the branch always ends in a `Type2TagCommandError` -/
 theorem readNak_raises (alive : Bool) : ∃ c, (readNak alive).1 = .error (.tagCmd c) := ⟨_, rfl⟩
 
-/-- the next `sector_select(s)` for a sector other than 0 therefore sends the two packets again -/
-theorem readNak_then_select (alive : Bool) (s : Int) (hs : s ≠ 0) (p1 p2 : Py Bytes) :
-    sectorSelect (readNak alive).2 s p1 p2 ≠ (.ok (readNak alive).2, (readNak alive).2) := by
-  unfold readNak sectorSelect
-  simp only [hs, if_false]
-  match p1 with
-  | .error e => simp
-  | .ok rsp =>
-    by_cases hr : rsp = [0x0A]
-    · simp only [hr, if_true]
-      match p2 with
-      | .ok _ => simp
-      | .error e =>
-        cases e with
-        | tagCmd code =>
-          by_cases hc : code = 0
-          · simp [hc]; intro h; exact hs h
-          · simp [hc]
-        | _ => simp
-    · simp [hr]
+/-- the next `sector_select(s)` for a sector other than 0 therefore sends packet 1 again -/
+theorem readNak_then_select (alive : Bool) (s : Int) (hs : s ≠ 0) (e : Exc) (p2 : Py Bytes) :
+    sectorSelect (some (readNak alive).2) s (.error e) p2 = (.error e, some 0) := by
+  have : ¬ ((0 : Int) = s) := fun h => hs h.symm
+  simp [sectorSelect, readNak, this]
 
 /-! ## page addressing: a linear page number lands in sector `page / 256` at page `page % 256` -/
 
